@@ -116,6 +116,40 @@ def manycat_columns():
                 yield {'fam': 'manycat', 'vals': vals}
 
 
+UNUSED_CAT = 'M'       # lexically between 'B1' and 'a'
+
+
+def cat_variant_columns(R, alpha=None):
+    """Categorical columns as a product {unordered, ordered} x {categories ==
+    values used, one unused category first / last in category order} x
+    {category order lexical, reversed, rotated}; the plain pd.Categorical(v)
+    form (unordered, used, lexical) is the base 'cat' family and is skipped
+    here.  Same family name: the documented meaning of every constraint is
+    about the VALUES, never about the declared categories or their order."""
+    alpha = alpha or FAMILIES['cat']
+    for vals in tuples_upto(alpha, R):
+        used = sorted(set(v for v in vals if v is not None))
+        seen = set()
+        for extra in (None, 'first', 'last'):
+            for order in ('lex', 'rev', 'rot'):
+                cats = list(used)
+                if order == 'rev':
+                    cats.reverse()
+                elif order == 'rot':
+                    cats = cats[1:] + cats[:1]
+                if extra == 'first':
+                    cats = [UNUSED_CAT] + cats
+                elif extra == 'last':
+                    cats = cats + [UNUSED_CAT]
+                for ordered in (False, True):
+                    key = (tuple(cats), ordered)
+                    if key in seen or (cats == used and not ordered):
+                        continue
+                    seen.add(key)
+                    yield {'fam': 'cat', 'vals': vals, 'cats': cats,
+                           'ordered': ordered}
+
+
 def columns(tier, which='c02'):
     """Every column of every family up to R rows (deterministic order,
     short columns first inside a family)."""
@@ -147,6 +181,8 @@ def columns(tier, which='c02'):
             alpha = STR_QUICK
         for t in tuples_upto(alpha, R):
             yield {'fam': fam, 'vals': t}
+    for c in cat_variant_columns(3 if thorough else 2):
+        yield c
     if which == 'c02' or thorough:
         for c in manycat_columns():
             yield c
@@ -276,6 +312,9 @@ def build_series(col):
     if fam in ('boolobj', 'strobj', 'dateobj', 'manycat'):
         return pd.Series(v, dtype=object)
     if fam == 'cat':
+        if 'cats' in col:
+            return pd.Series(pd.Categorical(v, categories=col['cats'],
+                                            ordered=bool(col.get('ordered'))))
         return pd.Series(pd.Categorical(v))
     if fam.startswith('dt_') or fam in TZAWARE:
         unit = fam[3:] if fam.startswith('dt_') else 'us'
@@ -296,7 +335,15 @@ def build_frame(cols, names, index=None):
     for c, n in zip(cols, names):
         d[n] = build_series(c)
     df = pd.DataFrame(d)
-    if index is not None:
+    if isinstance(index, dict):
+        # {'labels': [...] | None, 'name': str | None, 'colname': str | None}
+        if index.get('labels') is not None:
+            df.index = pd.Index(index['labels'])
+        if index.get('name') is not None:
+            df.index.name = index['name']
+        if index.get('colname') is not None:
+            df.columns.name = index['colname']
+    elif index is not None:
         df.index = pd.Index(index)
     return df
 
@@ -425,16 +472,20 @@ def date_bounds(fam, pyvals, side, tier):
     return out
 
 
-def string_bounds(fam, pyvals, side, tier):
+def string_bounds(fam, pyvals, side, tier, cats=None):
     nn = [v for v in pyvals if v is not None]
     if not nn:
-        return ['a', None]
+        return ['a', None] + ([UNUSED_CAT] if cats else [])
     m = min(nn) if side < 0 else max(nn)
     out = [m, m + 'a', None]
     if m:
         out.append(m[:-1])
     else:
         out.append('')
+    if cats is not None:
+        # bounds inside the category set (every category, used or not) as
+        # well as outside it (the derived ones above)
+        out += list(cats)
     return _uniq(out)
 
 
@@ -448,7 +499,7 @@ def minmax_bounds(col, side, tier):
         out = date_bounds(fam, pv, side, tier)
         out.append(1)
     else:
-        out = string_bounds(fam, pv, side, tier)
+        out = string_bounds(fam, pv, side, tier, col.get('cats'))
         out.append(1)
     return out
 
@@ -483,6 +534,8 @@ def allowed_values_values(col):
         out.append(exact)
         out.append(exact[1:])
         out.append(list(reversed(exact)))
+    if col.get('cats') and UNUSED_CAT in col['cats']:
+        out.append(exact + [UNUSED_CAT])
     if fam in extra:
         out.append(exact + [extra[fam]])
         if not seen:
